@@ -290,6 +290,95 @@ theorem other_only_when_ready (c : Cfg) (es : List Env) (s : State) (h : run c e
   | ready => rfl
   | _ => exact absurd (h3 (by rw [hp]; simp) (.other k) hk) (by simp [Wire.isAuth])
 
+/-! ## 2b. Set-up leaves the connection balanced: when connect hands the connection out, every request written during
+set-up has had its answer consumed.  This is the premise under which the C06 models start a connection
+(`ConnMux.init`, `TransportConn.Event.new`: nothing written that is not answered, no response bytes outstanding);
+there it was an assumption ("set-up exchanges abstracted"), here it is a theorem about the set-up model. -/
+
+/-- the environment event is a response read off the wire -/
+def isAnswer : Env → Bool
+  | .versions _ _ _ => true
+  | .reply _ _ _ => true
+  | _ => false
+
+/-- requests of the set-up exchange in a journal (ApiVersions, SaslHandshake, tokens) -/
+def setupWrites (l : List Item) : Nat :=
+  l.countP (fun i => match i with | .wrote w => w.isAuth | .verdict => false)
+
+/-- responses the client is waiting for in a phase -/
+def outstanding : Phase → Nat
+  | .awaitVersions => 1
+  | .awaitHandshake _ _ => 1
+  | .awaitAuth _ _ => 1
+  | _ => 0
+
+def actWrites (a : Act) : Nat :=
+  match a.write with
+  | some w => if w.isAuth then 1 else 0
+  | none => 0
+
+theorem react_balance {c : Cfg} {ph : Phase} {e : Env} {a : Act} (h : react c ph e = some a)
+    (hn : a.next ≠ .failed) :
+    outstanding ph + actWrites a = outstanding a.next + (if isAnswer e then 1 else 0) := by
+  react_cases h <;> simp_all [outstanding, actWrites, isAnswer, authWire_isAuth] <;> simp [Wire.isAuth]
+
+theorem setupWrites_apply (s : State) (a : Act) : setupWrites (s.apply a).log = setupWrites s.log + actWrites a := by
+  unfold State.apply setupWrites actWrites
+  cases a.write <;> cases a.verdict <;> simp [List.countP_append, List.countP_cons, List.countP_nil]
+
+/-- balance invariant along a script, `n` answers consumed so far -/
+theorem balance_run (c : Cfg) : ∀ (es : List Env) (s s' : State) (n : Nat),
+    (s.phase ≠ .failed → setupWrites s.log = n + outstanding s.phase) →
+    runFrom c s es = some s' → s'.phase ≠ .failed →
+    setupWrites s'.log = n + es.countP isAnswer + outstanding s'.phase := by
+  intro es
+  induction es with
+  | nil => intro s s' n hb h hf; simp [runFrom] at h; subst h; simpa using hb hf
+  | cons e es ih =>
+    intro s s' n hb h hf
+    simp only [runFrom] at h
+    split at h
+    · exact absurd h (by simp)
+    · next s1 h1 =>
+      have key : s1.phase ≠ .failed →
+          setupWrites s1.log = (n + (if isAnswer e then 1 else 0)) + outstanding s1.phase := by
+        intro hf1
+        unfold step at h1
+        cases hr : react c s.phase e with
+        | none => simp [hr] at h1
+        | some a =>
+          simp [hr] at h1; subst h1
+          have hsf : s.phase ≠ .failed := by
+            intro hsf; rw [hsf, react_failed] at hr; exact absurd hr (by simp)
+          have hb' := hb hsf
+          have hbal := react_balance hr (by simpa [State.apply] using hf1)
+          rw [setupWrites_apply]
+          simp only [State.apply] at hf1 ⊢
+          omega
+      have := ih s1 s' _ key h hf
+      rw [this, List.countP_cons]
+      split <;> simp_all <;> omega
+
+theorem start_balanced (c : Cfg) :
+    (start c).phase ≠ .failed → setupWrites (start c).log = 0 + outstanding (start c).phase := by
+  unfold start
+  cases c.path <;> cases c.sasl <;> (try cases c.addrOk) <;> simp [setupWrites, outstanding, Wire.isAuth]
+
+/-- **setup_is_balanced** — a connection handed out by `Dialer.connect` / `connGroup.connect` has consumed exactly one
+answer per set-up request it wrote: no response to a set-up request is outstanding, none was consumed twice -/
+theorem setup_is_balanced (c : Cfg) (es : List Env) (s : State) (h : run c es = some s) (hr : s.phase = .ready) :
+    setupWrites s.log = es.countP isAnswer := by
+  have := balance_run c es (start c) s 0 (start_balanced c) h (by simp [hr])
+  simpa [hr, outstanding] using this
+
+/-- while the set-up is in progress at most one answer is outstanding: set-up requests are never pipelined (so an answer
+cannot be attributed to a later set-up request) -/
+theorem setup_never_pipelines (c : Cfg) (es : List Env) (s : State) (h : run c es = some s) (hf : s.phase ≠ .failed) :
+    setupWrites s.log = es.countP isAnswer + outstanding s.phase ∧ outstanding s.phase ≤ 1 := by
+  have := balance_run c es (start c) s 0 (start_balanced c) h hf
+  have ho : outstanding s.phase ≤ 1 := by unfold outstanding; split <;> simp
+  exact ⟨by omega, ho⟩
+
 /-! ## 3. Any failure makes the dial fail and closes the connection -/
 
 /-- rejected mechanism / error code in any answer, a failing mechanism step, the broker closing the
